@@ -161,6 +161,7 @@ class Effects:
         self.sim = None
         self.cluster_records = 0
         self.conns = []
+        self.cursors = []
         self.info = None
         self.killinfo = os.path.join(scratch, 'c20.killinfo')
 
@@ -196,6 +197,7 @@ def _conn_class(eff: Effects):
         def execute(self, sql, *a):
             eff.guard()
             r = super().execute(sql, *a)
+            eff.cursors.append(r)
             head = sql.lstrip()[:6].upper()
             eff.hit('r' if head == 'SELECT' else 'w')
             return r
@@ -448,14 +450,20 @@ def _copy_db(path: str, copy_to: str) -> str:
 def _db_tables(path: str, copy_to: str = None) -> dict:
     """task_pool / task_states / task_outputs through a fresh connection."""
     if not os.path.exists(path):
-        return {'pool': {}, 'states': {}, 'outputs': {}}
+        return {'pool': {}, 'states': {}, 'outputs': {}, 'prereqs': {}}
     if copy_to:
         path = _copy_db(path, copy_to)
     con = real_sqlite3.connect(path, timeout=5)
     try:
         names = {r[0] for r in con.execute(
             "SELECT name FROM sqlite_master WHERE type='table'")}
-        pool, states, outputs = {}, {}, {}
+        pool, states, outputs, prereqs = {}, {}, {}, {}
+        if 'task_prerequisites' in names:
+            for c, n, pn, pc, po, sat in con.execute(
+                    'SELECT cycle, name, prereq_name, prereq_cycle, '
+                    'prereq_output, satisfied FROM task_prerequisites'):
+                prereqs.setdefault(f'{c}/{n}', {})[f'{pc}/{pn}:{po}'] = (
+                    sat not in (0, '0', None, ''))
         if 'task_pool' in names:
             for c, n, f, s in con.execute(
                     'SELECT cycle, name, flow_nums, status FROM task_pool'):
@@ -479,7 +487,8 @@ def _db_tables(path: str, copy_to: str = None) -> dict:
                     set(outputs.get(f'{c}/{n}', [])) | set(d))
     finally:
         con.close()
-    return {'pool': pool, 'states': states, 'outputs': outputs}
+    return {'pool': pool, 'states': states, 'outputs': outputs,
+            'prereqs': prereqs}
 
 
 def _dump_db(path: str, copy_to: str) -> dict:
@@ -550,14 +559,23 @@ async def _teardown(drv, eff: Effects):
             sim.task.cancel()
             with suppress(BaseException):
                 await sim.task
-        # what process death does to its connections: closed, never committed
+        # what process death does to its connections: statements dropped,
+        # connection closed, never committed (an unfinalised SELECT cursor
+        # kept alive by an abandoned frame would keep a closed connection -
+        # and its file lock - alive)
+        for cur in eff.cursors:
+            with suppress(Exception):
+                cur.close()
         for conn in eff.conns:
             with suppress(Exception):
                 real_sqlite3.Connection.close(conn)
+        if sim is not None:
+            sim.crashed = None
     elif sim is not None:
         eff.on = False
         with suppress(Exception):
             await sim.force_stop()
+    eff.cursors = []
 
 
 async def _incarnation_body(case, ctx, n_inc, down, eff, cf, box):
@@ -882,6 +900,51 @@ def judge(spec, ref, records, chain, final, k=0, first_commit_k=0) -> list:
     incarnation; final: result of the last (uninterrupted) incarnation."""
     viol = []
     launches = [(r[1], r[2], r[3], r[4]) for r in records if r[0] == 'L']
+    # instances hit by the one understood window: their job reached the
+    # cluster in an incarnation that was killed before the commit recording
+    # it as submitted (the next incarnation found the task `preparing` under
+    # that submit number: it neither polls the job nor knows it exists)
+    relaunched = set()
+    for cyc, name, sn, inc in launches:
+        ident = f'{cyc}/{name}'
+        db = next((d for (_info, d, i) in chain if i == inc), None)
+        if (db is not None and db['pool'].get(ident) == 'preparing'
+                and (db['states'].get(ident) or [None])[0] == sn):
+            relaunched.add((cyc, name))
+    # instances with a custom output whose message the job had sent before
+    # a crash (or while the scheduler was down) but which the database at
+    # that crash did not have although the task was active there: only the
+    # restart poll can recover it - unless the task completes first
+    n_final = final.get('inc', 0)
+    at_risk = {}
+    unrestored_custom = set()
+    for r in records:
+        if r[0] != 'E' or r[3] >= n_final:
+            continue
+        cyc, name, _nn = r[1].split('/')
+        ident = f'{cyc}/{name}'
+        db = next((d for (_info, d, i) in chain if i == r[3]), None)
+        if db is None or db['pool'].get(ident) not in (
+                'submitted', 'running'):
+            continue
+        for o, msg in (spec.get('custom', {}).get(name) or {}).items():
+            if msg != r[2]:
+                continue
+            if o not in db['outputs'].get(ident, ()):
+                at_risk.setdefault((cyc, name), set()).add(o)
+            elif msg != o:
+                # committed, but load_db_task_pool_for_restart iterates the
+                # {trigger: message} dict of task_outputs and calls
+                # set_message_complete(trigger): an output whose message
+                # differs from its name is not restored on the proxy
+                at_risk.setdefault((cyc, name), set()).add(o)
+                unrestored_custom.add((cyc, name))
+    lost_msg = set()
+    if final.get('db'):
+        for (cyc, name), outs in at_risk.items():
+            got = set(final['db']['outputs'].get(f'{cyc}/{name}', ()))
+            if outs - got:
+                lost_msg.add((cyc, name))
     # (3) no (cycle, task, submit_num) launched twice on the cluster
     first = {}
     for cyc, name, sn, inc in launches:
@@ -949,24 +1012,82 @@ def judge(spec, ref, records, chain, final, k=0, first_commit_k=0) -> list:
                     and not db1['pool'] and missing == sorted(ref_set)):
                 sig += ':killed-before-first-task-pool-commit'
             else:
-                def orphan(ident):
-                    return any(
-                        d is not None and ident not in d['pool']
-                        and (d['states'].get(ident) or [None, None])[:2]
-                        == [0, 'waiting'] for (_i, d, _n) in chain)
                 to_int, _to_str = point_maps(spec)
                 model = Model(spec)
                 miss = set(missing)
-                roots = {m for m in miss if orphan(f'{m[0]}/{m[1]}')}
+                dbs = [d for (_i, d, _n) in chain if d is not None]
+                active = ('preparing', 'submitted', 'running')
+                final_st = ('succeeded', 'failed', 'submit-failed', 'expired')
 
-                def downstream(m):
+                def atoms(m):
                     p = to_int.get(m[0])
-                    return p is not None and any(
-                        (_to_str.get(q), u) in miss
-                        for (u, q, _o) in model.real_atoms(m[1], p))
-                if roots and all(m in roots or downstream(m) for m in miss):
-                    sig += (':spawned-child-in-task_states-but-not-in-'
-                            'task_pool-at-crash')
+                    if p is None:
+                        return []
+                    return [(f'{_to_str.get(q)}/{u}', u, o)
+                            for (u, q, o) in model.real_atoms(m[1], p)]
+
+                def orphan(m):
+                    # row of a spawned child flushed by an early commit
+                    # (TaskPool.remove(), absolute outputs): in task_states
+                    # (waiting, submit 0) but not in task_pool, which is
+                    # rewritten only at the end of the iteration.  (An EMPTY
+                    # task_pool is a different state - torn rewrite, or the
+                    # first-iteration case above - and is not accepted.)
+                    ident = f'{m[0]}/{m[1]}'
+                    return any(
+                        d['pool'] and ident not in d['pool']
+                        and (d['states'].get(ident) or [None, None])[:2]
+                        == [0, 'waiting'] for d in dbs)
+
+                def behind_committed_output(m):
+                    # an upstream output was already committed as complete
+                    # (early commit of an absolute-trigger output) while the
+                    # database had neither spawned m nor satisfied its
+                    # prerequisite on that output
+                    ident = f'{m[0]}/{m[1]}'
+                    for d in dbs:
+                        for (up, u, o) in atoms(m):
+                            if o not in d['outputs'].get(up, ()):
+                                continue
+                            if d['pool'].get(up) not in active:
+                                continue
+                            msg = spec.get('custom', {}).get(u, {}).get(o, o)
+                            if ident not in d['pool'] \
+                                    and ident not in d['states']:
+                                return True
+                            pr = d['prereqs'].get(ident, {})
+                            if d['pool'].get(ident) == 'waiting' and any(
+                                    key in pr and not pr[key]
+                                    for key in (f'{up}:{o}', f'{up}:{msg}')):
+                                return True
+                    return False
+
+                roots = {m for m in miss if orphan(m)}
+                roots_e = {m for m in miss if behind_committed_output(m)}
+
+                def downstream(m, of):
+                    return any((up.split('/', 1)[0], u) in of
+                               for (up, u, _o) in atoms(m))
+                if all(m in roots or m in roots_e or downstream(m, miss)
+                       or downstream(m, relaunched)
+                       or downstream(m, lost_msg) for m in miss):
+                    if roots:
+                        sig += (':spawned-child-in-task_states-but-not-in-'
+                                'task_pool-at-crash')
+                    elif roots_e:
+                        sig += (':output-committed-before-children-spawned-'
+                                'or-satisfied')
+                    elif any(downstream(m, lost_msg) for m in miss):
+                        sig += (':downstream-of-output-message-lost-in-'
+                                'crash-and-task-completed-before-restart-'
+                                'poll-returned')
+                    else:
+                        # consequence of the launch / commit window: the
+                        # first job run reports to a scheduler that thinks
+                        # the task is still to be submitted; outputs it
+                        # reported while the scheduler was down are lost
+                        sig += (':downstream-of-job-launched-before-crash-'
+                                'but-db-still-preparing')
             viol.append(Violation(
                 sig,
                 f'the uninterrupted run launched {sorted(ref_set)}; across '
@@ -984,10 +1105,16 @@ def judge(spec, ref, records, chain, final, k=0, first_commit_k=0) -> list:
                 diff_ids.append(ident)
         if diffs and not missing:
             sig = f'{PROP_ID}:final-outputs-differ-from-uninterrupted-run'
-            # narrow classification of one understood cause (restart load,
-            # not the crash): completed outputs are restored only for tasks
-            # loaded as running / succeeded / failed, so a retained
-            # submit-failed task comes back without its submit-failed output
+            # narrow classification of two understood causes:
+            # (a) restart load, not the crash: completed outputs are
+            #     restored only for tasks loaded as running / succeeded /
+            #     failed, so a retained submit-failed task comes back
+            #     without its submit-failed output;
+            # (b) the instance itself was hit by the launch / commit window
+            #     above: the restarted scheduler does not poll it, messages
+            #     sent while it was down are lost, the task completes on the
+            #     first run's "succeeded" (before or after the relaunch)
+
             def unrestored(ident):
                 want = set(ref['db']['outputs'].get(ident, []))
                 got = set(final['db']['outputs'].get(ident, []))
@@ -995,9 +1122,35 @@ def judge(spec, ref, records, chain, final, k=0, first_commit_k=0) -> list:
                         and any(d is not None
                                 and d['pool'].get(ident) == 'submit-failed'
                                 for (_i, d, _n) in chain))
-            if all(unrestored(i) for i in diff_ids):
-                sig += ':submit-failed-output-not-restored-on-restart'
-            viol.append(Violation(sig, '; '.join(diffs)))
+            groups = {}
+            for ident, text in zip(diff_ids, diffs):
+                cyc, name = ident.split('/', 1)
+                if (cyc, name) in relaunched:
+                    g = ':job-launched-before-crash-but-db-still-preparing'
+                elif unrestored(ident):
+                    g = ':submit-failed-output-not-restored-on-restart'
+                elif ((cyc, name) in lost_msg
+                      and set(final['db']['outputs'].get(ident, ()))
+                      <= set(ref['db']['outputs'].get(ident, ()))
+                      and set(ref['db']['outputs'].get(ident, ()))
+                      - set(final['db']['outputs'].get(ident, ()))
+                      <= at_risk[(cyc, name)]):
+                    # (c) the message of a custom output was received but
+                    #     not yet committed when the scheduler died; after
+                    #     the restart the job's "succeeded" was processed
+                    #     before the restart poll returned, the task left
+                    #     the pool and the polled message was ignored
+                    g = (':output-message-lost-in-crash-and-task-completed-'
+                         'before-restart-poll-returned')
+                    if (cyc, name) in unrestored_custom:
+                        g = (':custom-output-not-restored-at-restart-load-'
+                             'and-task-completed-before-restart-poll-'
+                             'returned')
+                else:
+                    g = ''
+                groups.setdefault(g, []).append(text)
+            for g, texts in sorted(groups.items()):
+                viol.append(Violation(sig + g, '; '.join(texts)))
     return viol
 
 
@@ -1189,3 +1342,91 @@ def labs_short(labs):
 
 def run_shard(ctx: Ctx):
     hyp_run(ctx, cases(ctx.tier), check_case, ctx.share(BUDGET[ctx.tier]))
+
+
+# ---------------------------------------------------------------------------
+# stand-alone demonstration entry (used by findings/C20_*.py)
+
+def explain(case, scratch=None, fork=True):
+    """Run one scenario (its kill points by REAL process death in forked
+    children when fork=True) and print what happened."""
+    import tempfile
+    from vf.core import Collector
+    made = scratch is None
+    if made:
+        scratch = tempfile.mkdtemp(prefix='c20-explain-')
+        os.environ['HOME'] = os.path.join(scratch, 'home')
+        os.environ['CYLC_CONF_PATH'] = os.path.join(scratch, 'conf')
+        os.makedirs(os.environ['HOME'], exist_ok=True)
+        os.makedirs(os.environ['CYLC_CONF_PATH'], exist_ok=True)
+        os.chdir(scratch)
+    os.environ['C20_TRACE'] = '1'
+    if fork:
+        os.environ['C20_FORK_ALL'] = '1'
+    ctx = Ctx(PROP_ID, 'quick', 1, 0, 1, scratch, Collector(PROP_ID))
+    ctx.col.known = {}
+    g = globals()
+    orig = g['_run']
+
+    def show(e):
+        k, it = e['k'], e['it']
+        if k == 'state':
+            if e['before'][0] != e['after'][0]:
+                print(f"      [{it}] {e['cycle']}/{e['name']}: "
+                      f"{e['before'][0]} -> {e['after'][0]} (submit "
+                      f"{e['submit_num']:02d}) in {e['site'][:1]}")
+        elif k == 'pm':
+            print(f"      [{it}] message {e['msg']!r} {e['flag']} for "
+                  f"{e['cycle']}/{e['name']}: outputs now {e['after'][2]}")
+        elif k in ('add', 'remove'):
+            print(f"      [{it}] {k} {e['cycle']}/{e['name']} "
+                  f"{e.get('outputs', '')}")
+        elif k == 'launch':
+            print(f"      [{it}] JOBS-SUBMIT reaches the cluster: "
+                  f"{e['cycle']}/{e['name']}/{e['submit_num']:02d}")
+        elif k in ('poll-launch', 'spawn-refused', 'stalled', 'shutdown',
+                   'msg-lost', 'deliver'):
+            print(f"      [{it}] {k} "
+                  f"{ {a: b for a, b in e.items() if a not in ('k', 'it')} }")
+
+    def run(case, ctx, n_inc, kill_at=0, record=False, down=0):
+        status, res = orig(case, ctx, n_inc, kill_at, record, down)
+        what = 'uninterrupted reference run' if record else (
+            f'incarnation {n_inc}'
+            + (f', killed by os._exit(137) after its effect {kill_at} '
+               f'({res.get("kind")}, main-loop iteration {res.get("it")})'
+               if status == 'killed' else ' (runs to the end)'))
+        print(f'--- {what}')
+        if res.get('db_at_crash'):
+            d = res['db_at_crash']
+            print(f'    private DB found by this incarnation: task_pool '
+                  f'{d["pool"]}; task_states {d["states"]}; task_outputs '
+                  f'{d["outputs"]}')
+        for e in res.get('trace') or ():
+            show(e)
+        if status == 'done':
+            print(f'    ended: shutdown={res["shut"]} quiescent='
+                  f'{res["quiescent"]}; final task_outputs '
+                  f'{res["db"]["outputs"]}; pool {res["pool_end"]}')
+        return status, res
+
+    g['_run'] = run
+    try:
+        print(render_flow(case['spec']))
+        print('job outcomes (exceptions to "succeed, emit every output"):',
+              case.get('outcomes') or {})
+        res = check_case(case, ctx)
+    finally:
+        g['_run'] = orig
+        os.environ.pop('C20_FORK_ALL', None)
+        os.environ.pop('C20_TRACE', None)
+        if made:
+            os.chdir('/')
+            shutil.rmtree(scratch, ignore_errors=True)
+    print()
+    for v in res.violations:
+        print('VIOLATION', v.sig)
+        print('   ', v.detail)
+    if not res.violations:
+        print('no violation')
+    return res
